@@ -153,7 +153,26 @@ func refReplace(s, from, to string) string {
 	return strings.ReplaceAll(s, from, to)
 }
 
-// refToBase64: "Encoded output consists of groups of 4 printable characters … A newline is
+// refTrimStr implements TRIM([{BOTH | LEADING | TRAILING} remstr FROM] str): "Returns the
+// string str with all remstr prefixes or suffixes removed" (remstr non-empty).
+func refTrimStr(s, rem string, leading, trailing bool) string {
+	if rem == "" {
+		return s
+	}
+	if leading {
+		for strings.HasPrefix(s, rem) {
+			s = s[len(rem):]
+		}
+	}
+	if trailing {
+		for strings.HasSuffix(s, rem) {
+			s = s[:len(s)-len(rem)]
+		}
+	}
+	return s
+}
+
+// refToBase64:"Encoded output consists of groups of 4 printable characters … A newline is
 // added after each 76 characters of encoded output" (not after the last group).
 func refToBase64(b []byte) string {
 	e := base64.StdEncoding.EncodeToString(b)
